@@ -21,7 +21,7 @@ RULE = (
     "(operation, parameters, screen hash); raising = did not return; non-trivial = returned and input has >=2 unobserved plates or >=2 samples"
 )
 ASSUMPTIONS = ["NPlatePerCellLine: 'no sample' is read as no sample that still has unobserved experiments in the output (the observed part passes through, C11)"]
-REQUIRED = {"returned_SampleSegregating": {"quick": 150, "thorough": 3000}, "returned_Pairwise": {"quick": 40, "thorough": 1000}, "returned_MergeMin": {"quick": 60, "thorough": 1500}, "returned_MergeTopBottom": {"quick": 60, "thorough": 1500}, "returned_FixedSize": {"quick": 80, "thorough": 2000}, "returned_OptimalSize": {"quick": 80, "thorough": 2000}, "returned_NPlatePerCellLine": {"quick": 60, "thorough": 1500}, "returned_SparseCover": {"quick": 80, "thorough": 2000}, "returned_combo_filter": {"quick": 80, "thorough": 2000}}
+REQUIRED = {"cli_shape_runs": {"quick": 12, "thorough": 120}, "returned_SampleSegregating": {"quick": 150, "thorough": 3000}, "returned_Pairwise": {"quick": 40, "thorough": 1000}, "returned_MergeMin": {"quick": 60, "thorough": 1500}, "returned_MergeTopBottom": {"quick": 60, "thorough": 1500}, "returned_FixedSize": {"quick": 80, "thorough": 2000}, "returned_OptimalSize": {"quick": 80, "thorough": 2000}, "returned_NPlatePerCellLine": {"quick": 60, "thorough": 1500}, "returned_SparseCover": {"quick": 80, "thorough": 2000}, "returned_combo_filter": {"quick": 80, "thorough": 2000}}
 N_OPS = {"quick": 4800, "thorough": 64000}
 
 
@@ -126,6 +126,82 @@ def check_op(rec, name, params, inp, out, w):
             rec.check(sum(sout.get(smp, [])) == sum(sizes), "C13/MergeTopBottom/experiments-lost", "sample %r lost experiments" % smp, w)
 
 
+def cli_shapes(rec, tier, rng):
+    """The same guarantees when generator / smoother and their parameters are given on the command line of
+    prepare_retrospective_simulation (string parameters cast by annotation, hold-out fraction 0 so that the training
+    file is the prepared screen)."""
+    import os
+    from batchie.data import Screen
+    from batchie.cli import prepare_retrospective_simulation as cli
+
+    variants = ["segregating", "pairwise", "fixed", "nplate", "sparse-cover"]
+    with kit.scratch_dir("vf-c13-") as tmp:
+        for ci in range({"quick": 3, "thorough": 15}[tier]):
+            kw, _fl = RC.retro_screen_kwargs(rng)
+            kw = dict(kw, observation_mask=np.ones(len(kw["plate_names"]), dtype=bool))
+            f_in, f_tr, f_te = (os.path.join(tmp, x) for x in ("in.h5", "train.h5", "test.h5"))
+            try:
+                Screen(**kw).save_h5(f_in)
+            except Exception as e:
+                rec.did_not_return("cli-construct", e)
+                continue
+            v = variants[int(rng.integers(len(variants)))]
+            argv = ["--data", f_in, "--training-output", f_tr, "--test-output", f_te, "--holdout-fraction", "0", "--seed", int(rng.integers(0, 1000))]
+            params = {}
+            if v == "segregating":
+                params = {"max_plate_size": int(rng.integers(1, 9))}
+                argv += ["--plate-generator", "SampleSegregatingPermutationPlateGenerator", "--plate-generator-param", "max_plate_size=%d" % params["max_plate_size"]]
+            elif v == "pairwise":
+                params = {"subset_size": int(rng.integers(1, 4)), "anchor_size": int(rng.integers(0, 3))}
+                argv += ["--plate-generator", "PairwisePlateGenerator", "--plate-generator-param", "subset_size=%d" % params["subset_size"], "--plate-generator-param", "anchor_size=%d" % params["anchor_size"]]
+            elif v == "fixed":
+                params = {"plate_size": int(rng.integers(1, 7))}
+                argv += ["--plate-smoother", "FixedSizeSmoother", "--plate-smoother-param", "plate_size=%d" % params["plate_size"]]
+            elif v == "nplate":
+                params = {"min_n_cell_line_plates": int(rng.integers(1, 4))}
+                argv += ["--plate-smoother", "NPlatePerCellLineSmoother", "--plate-smoother-param", "min_n_cell_line_plates=%d" % params["min_n_cell_line_plates"]]
+            else:
+                params = {"reveal_single_treatment_experiments": bool(rng.random() < 0.5)}
+                argv += ["--initial-plate-generator", "SparseCoverPlateGenerator", "--initial-plate-generator-param", "reveal_single_treatment_experiments=%s" % str(rng.choice(["true", "yes", "1"] if params["reveal_single_treatment_experiments"] else ["false", "no", "0"]))]
+            w = {"via": "prepare_retrospective_simulation", "variant": v, "params": params}
+            try:
+                kit.run_cli(cli.main, argv)
+                out = Screen.load_h5(f_tr)
+            except Exception as e:
+                rec.did_not_return("cli-" + v, e)
+                continue
+            rec.count("cli_shape_runs")
+            rec.count("cli_shape_" + v)
+            rec.case(("cli", v, repr(sorted(params.items())), kit.array_hash(kw["observations"])), nontrivial=True)
+            pout = unobs_plates(out)
+            if v == "segregating":
+                check_op(rec, "SampleSegregating", params, out, out, w)
+            elif v == "pairwise":
+                check_op(rec, "Pairwise", params, out, out, w)
+            elif v == "fixed":
+                sizes = sorted(len(t[0]) for t in pout.values())
+                rec.check(all(x == params["plate_size"] for x in sizes), "C13/FixedSize/wrong-size-or-count", lambda: "--plate-smoother-param plate_size=%d: unobserved plate sizes in the training file %r" % (params["plate_size"], sizes), w)
+            elif v == "nplate":
+                cnt = {}
+                for tags, samples in pout.values():
+                    for smp in samples:
+                        cnt[smp] = cnt.get(smp, 0) + 1
+                low = {s_: c for s_, c in cnt.items() if c < params["min_n_cell_line_plates"]}
+                rec.check(not low, "C13/NPlatePerCellLine/sample-under-threshold-survives", lambda: "--plate-smoother-param min_n_cell_line_plates=%d: samples with fewer unobserved plates in the training file: %r" % (params["min_n_cell_line_plates"], low), w)
+            else:
+                obs = np.asarray(out.observation_mask)
+                miss_s = sorted(set(str(x) for x in out.sample_names) - set(str(x) for x in out.sample_names[obs]))
+                rec.check(not miss_s, "C13/SparseCover/sample-not-covered", lambda: "samples %r have no observed experiment in the training file" % miss_s, w)
+                tids = np.asarray(out.treatment_ids)
+                all_t = set(int(x) for x in tids.ravel()) - {-1}
+                cov_t = set(int(x) for x in tids[obs].ravel()) - {-1}
+                rec.check(all_t <= cov_t, "C13/SparseCover/treatment-not-covered", lambda: "treatment ids %r have no observed experiment in the training file" % sorted(all_t - cov_t), w)
+                rec.check(len(set(str(x) for x in out.plate_names[~obs])) <= 1, "C13/SparseCover/rest-not-one-plate", "unobserved rest spread over several plates", w)
+                if params["reveal_single_treatment_experiments"]:
+                    single = (tids == -1).any(axis=1)
+                    rec.check(bool(obs[single].all()), "C13/SparseCover/single-agent-not-revealed", "single-agent experiments not all revealed although the command line asked for it", w)
+
+
 def run_shard(rec, tier, seed, shard, nshards):
     from batchie.data import Screen, filter_dataset_to_treatments_that_appear_in_at_least_one_combo
     from batchie import retrospective as R
@@ -207,3 +283,4 @@ def run_shard(rec, tier, seed, shard, nshards):
         check_op(rec, name, params, screen, out, w)
         if oi < 12 and shard == 0:
             rec.sample({"op": name, "params": params, "input_unobserved_plate_sizes": sorted(len(v[0]) for v in unobs_plates(screen).values()), "output_unobserved_plate_sizes": sorted(len(v[0]) for v in unobs_plates(out).values())})
+    cli_shapes(rec, tier, rng)
